@@ -7,6 +7,7 @@ import Driver.SndDrv
 import Driver.SharedDrv
 import Driver.AffDrv
 import Driver.CVDrv
+import Driver.DequeDrv
 /-! `driver <model>`: reads harness output (cases) on stdin, prints one verdict line per case. -/
 open Driver
 
@@ -20,6 +21,7 @@ def dispatch (model : String) (c : Case) : String :=
   | "shared" => SharedDrv.runCase c
   | "aff" => AffDrv.runCase c
   | "cv" => CVDrv.runCase c
+  | "deque" => DequeDrv.runCase c
   | _ => s!"case {c.id} reject 0 unknown-model-{model}"
 
 def main (args : List String) : IO UInt32 := do
